@@ -1,7 +1,7 @@
 (* C04 — Products, quotients and integer powers of quantities are dimensionally exact.  Statements only. *)
 From Coq Require Import ZArith NArith QArith Qpower List.
 Import ListNotations.
-From AV Require Import model.UnitTypes model.Units model.Rat model.Compound model.Eval proofs.MapProofs proofs.FactorProofs proofs.MulProofs.
+From AV Require Import model.UnitTypes model.Units model.Rat model.Compound model.Eval proofs.MapProofs proofs.FactorProofs proofs.MulProofs proofs.NonZeroPowers proofs.NeverPanics.
 Open Scope Z_scope.
 
 (* [si x] = value * scale unit is the quantity expressed in base SI units, [dim] its base dimensions (FactorProofs). *)
@@ -36,6 +36,18 @@ Proof. exact op_pow_si. Qed.
 (* products of proportional quantities never fail, and their unit is again proportional *)
 Theorem C04_mul_total : forall (self other : compound) n lhs rhs, proportional self -> proportional other -> mul self other n lhs rhs <> None.
 Proof. exact mul_total. Qed.
+
+(* the result of a product or quotient never carries a unit with power zero (the assertion of Compound::new): [NZ] = no zero
+   power, [dimensional] = made of units of the tables *)
+Theorem C04_mul_no_zero_powers : forall (self other : compound) n lhs rhs c l r, n <> 0 ->
+  NZ self -> NZ other -> dimensional self -> dimensional other -> mul self other n lhs rhs = Some (c, l, r) -> NZ c.
+Proof. exact mul_NZ. Qed.
+Theorem C04_op_mul_never_panics : forall debug span (a b : numeric) w,
+  NZ (snd a) -> NZ (snd b) -> dimensional (snd a) -> dimensional (snd b) -> op_mul debug span a b <> Panic w.
+Proof. exact op_mul_no_panic. Qed.
+Theorem C04_op_div_never_panics : forall debug span (a b : numeric) w,
+  NZ (snd a) -> NZ (snd b) -> dimensional (snd a) -> dimensional (snd b) -> op_div debug span a b <> Panic w.
+Proof. exact op_div_no_panic. Qed.
 
 Example C04_example :
   (exists r, op_mul true (0%N, 0%N) ((3 # 1)%Q, [(353022001%N, (1, 0))]) ((2 # 1)%Q, [(base_key 2, (1, 0))]) = Ok r /\ (si r == 6 # 1)%Q) /\
